@@ -53,7 +53,7 @@ def run_case(params, prefix):
 
 
 def cases_for(tier):
-    return [{"spec": s} for s in _exec.catalogue(tier)]
+    return [_exec.case_of(s) for s in _exec.catalogue(tier)]
 
 
 def main(argv=None):
@@ -64,7 +64,8 @@ def main(argv=None):
     cases = cases_for(args.tier)
     bound = 1 if args.tier == "quick" else 2
     return _exec.generic_main(
-        PROP, sys.modules[__name__], "model_checking", cases, bound, {},
+        PROP, sys.modules[__name__], "model_checking", cases, bound,
+        {i: c["bound"] for i, c in enumerate(cases) if "bound" in c},
         rule="fault-free catalogue programs x all schedules within the deviation bound (db replies, job completion "
              "order, asyncio.wait orders); oracle: outputs identical to the default schedule AND to the reference "
              "function; distinct = distinct ordered event logs",
